@@ -63,12 +63,18 @@ def build_props(prop_id, groups=None, timeout=900):
     t0 = time.time()
     out = {'ok': False, 'gen': {}, 'log': '', 'theorems': [], 'assumptions': {}, 'failed_obligation': None}
     with Lock('coqbuild'):
-        gen = regenerate(groups)
+        # ALL kernel groups are regenerated on every check (0.2 s): a check can never build against a stale kernel.
+        # A group whose generation fails is removed, so that the build below fails exactly when this property's
+        # theorems depend on it
+        gen = regenerate(None)
         out['gen'] = gen
         bad = {g: e for g, e in gen.items() if e}
-        if bad:
-            g, e = sorted(bad.items())[0]
-            out['failed_obligation'] = f"generation of Gen/{g}.v failed: {e}"
+        for g in bad:
+            for ext in ('.v', '.vo', '.glob', '.vos', '.vok'):
+                try:
+                    os.remove(os.path.join(COQ, 'Gen', g + ext))
+                except OSError:
+                    pass
         rc, log = sh(['sh', 'mkproject.sh'], cwd=COQ)
         vo = f'Props/{prop_id}.vo'
         for ext in ('.vo', '.glob', '.vos', '.vok'):
@@ -84,6 +90,9 @@ def build_props(prop_id, groups=None, timeout=900):
             err = log.strip().splitlines()[-12:]
             if out['failed_obligation'] is None:
                 out['failed_obligation'] = f"coqc failed at {where}: " + " | ".join(l.strip() for l in err if l.strip())[:600]
+                if bad:
+                    out['failed_obligation'] = ("generation failed: " + "; ".join(f"Gen/{g}.v: {e}" for g, e in sorted(bad.items()))[:500] +
+                                                " || " + out['failed_obligation'])
             out['wall_s'] = time.time() - t0
             return out
     # hygiene: nothing in the development may be assumed, admitted or exempted from the kernel's checks
